@@ -36,6 +36,7 @@ def plan(tier, seed):
         specs.append({'kind': 'sequences', 'seed': seed * 1000 + j, 'count': per})
     for j in range(n):
         specs.append({'kind': 'soups', 'seed': seed * 1000 + 500 + j, 'count': per * 3})
+    specs.append({'kind': 'files', 'seed': seed * 1000 + 800, 'count': 150 if tier == 'quick' else 1500})
     n2, per2 = (3, 25) if tier == 'quick' else (12, 45)
     for j in range(n2):
         specs.append({'kind': 'programs', 'seed': seed * 1000 + 900 + j, 'count': per2})
@@ -304,6 +305,54 @@ def run_shard(spec):
                 compare_with_reference(res, text, 'sequence')
             if len(res['samples']) < 2:
                 res['samples'].append({'layout_text': text[:300]})
+    elif kind == 'files':
+        # the same token sequences read through SourceCode.from_file (the command-line path): file endings
+        # (no final newline, LF, CRLF, CR, blank, comment) must not change the tokens
+        import os
+        from hidc.lexer import lex, SourceCode, tokens as TK
+        r = random.Random(spec['seed'])
+        scratch = os.environ.get('HIDVERIF_SCRATCH') or os.path.join(env.VERIF, '.scratch')
+        os.makedirs(scratch, exist_ok=True)
+        path = os.path.join(scratch, f'lexfile-{os.getpid()}.hid')
+        CompilerError, _ = env.compiler_error_types()
+        for _ in range(spec['count']):
+            toks = [random_token(r) for _ in range(r.randint(1, 8))]
+            toks = [t for t in toks if not (t[0] == 'str' and (b'\r' in t[1] or b'\n' in t[1] or '\r' in t[2]))] or [('ident', 'x', 'x')]
+            body = ''
+            for i, t in enumerate(toks):
+                body += t[2]
+                if i + 1 < len(toks):
+                    body += r.choice([' ', '\n', '  ', '\n  ']) if not needs_separator(t, toks[i + 1]) or True else ' '
+            for ending in ('', '\n', '\r\n', '\r', ' ', '\n\n', ' // c', '\n// c', '\t'):
+                text = body + ending
+                if ending.startswith(' //') and body.endswith('/'):
+                    continue
+                with open(path, 'wb') as f:
+                    f.write(text.encode('utf-8'))
+                res['evaluations'] += 1
+                try:
+                    got = []
+                    for lx in lex(SourceCode.from_file(path)):
+                        t = lx.token
+                        got.append(('int', t.data) if isinstance(t, TK.IntToken) else ('char', t.data) if isinstance(t, TK.CharToken) else
+                                   ('str', t.data) if isinstance(t, TK.StringToken) else ('ident', t.name) if isinstance(t, TK.Ident) else ('sym', str(t)))
+                except CompilerError as e:
+                    got = f'{type(e).__name__}: {e}'
+                except Exception as e:  # noqa
+                    runner.fail(res, 'M-EXC', f'from_file: {type(e).__name__}: {e}', {'text': text})
+                    continue
+                want = [(t[0], t[1]) for t in toks]
+                if got != want:
+                    runner.fail(res, 'M-LEX', f'file ending {ending!r}: tokens read from the file differ: {str(got)[:160]} instead of {str(want)[:160]}',
+                                {'text': text, 'via': 'SourceCode.from_file'}, expected=str(want)[:400], observed=str(got)[:400])
+                    break
+                res['nontrivial'].append(runner.case_id('file', text))
+            else:
+                runner.count(res, 'file_texts_recovered')
+        try:
+            os.remove(path)
+        except OSError:
+            pass
     elif kind == 'soups':
         r = random.Random(spec['seed'])
         for _ in range(spec['count']):
